@@ -15,6 +15,7 @@ import collections, concurrent.futures as cf, glob, hashlib, os, re, time
 
 from .common import VERIF
 from . import c06_bb
+from . import c06_tab
 
 LEVEL = "proof"
 CORPUS = os.path.join(VERIF, "corpus", "C06")
@@ -341,6 +342,8 @@ def replay(ctx, path):
     obj = json.load(open(path))
     if obj.get("stage") == "c06_bb":          # stage 3 replay files (branch-and-bound tree)
         return c06_bb.replay(ctx, path)
+    if obj.get("stage") == "c06_tab":         # stage 3 (b)(c)(d) replay files (tableau / simplex phases)
+        return c06_tab.replay(ctx, path)
     ctx.ensure_ppl()
     drv = ctx.ensure_pplv("pplv_mip")
     h = ctx.compile_harness("c06_mip.cc")
@@ -398,7 +401,7 @@ def run(ctx):
     stats_corpus = dict(stats)
 
     # ---- 2. seeded histories, in parallel ---------------------------------------------------------
-    n_hist = int(os.environ.get("VERIF_C06_HISTS", "0")) or (1600 if quick else 30000)
+    n_hist = int(os.environ.get("VERIF_C06_HISTS", "0")) or (1200 if quick else 30000)
     nproc = 12
     per = (n_hist + nproc - 1) // nproc
     maxdim = 4
@@ -461,6 +464,7 @@ def run(ctx):
             examine(ctx, hist, lambda i, b=base, v=verd: v.get(b + i), "seed %d" % ctx.seed, stats, seen_sites, R)
 
     broken += c06_bb.run(ctx)          # stage 3: branch-and-bound recursion (proof + node-for-node correspondence)
+    broken += c06_tab.run(ctx)         # stage 3 (b)(c)(d): tableau set-up, the two simplex phases, pricing independence
 
     for b in broken:
         ctx.violation("proof obligation of C06 does not check: " + b,
